@@ -6,7 +6,9 @@
 //! output formats; (B) all byte strings up to a bound over {00, a, LF, CR, FF, C3, A9, '{', '"'} as input files for a
 //! regex table and a JSON table; (Z) in child processes with TZ in {UTC, Europe/Stockholm, America/Sao_Paulo,
 //! Australia/Lord_Howe}: local times at 15-minute steps across each zone's DST gap and overlap through every timestamp
-//! construction path; (X) the real CLI binary on one case per group.
+//! construction path; (X) the real CLI binary on one case per group; (W, T) numbers outside the INT range / outside every
+//! date part's range through every extraction and cast path (never a wrapped value); (G) every aggregate name x every
+//! argument form (empty, *, DISTINCT without a column, surplus arguments) in projection, next to a key and in HAVING.
 //! Oracle: Ok or Err, never a panic (overflow checks are on, so a silent wrap is a panic), never a signal, never a hang.
 
 use serde_json::{json, Value as J};
@@ -521,11 +523,111 @@ fn wrap_layer(col: &Collector) {
     col.sample(json!({"layer": "W", "statement": "SELECT a, m FROM j", "line": "{\"a\":9223372036854775808,\"m\":\"m\"}"}));
 }
 
+/// one extraction probe: `SELECT * FROM x` over one line; no panic, and a date part / element outside its range never
+/// becomes a value (`expect_null`: the first column must be NULL)
+fn extract_case(def: &str, line: &str, expect_null: bool) -> Vec<Failure> {
+    let case = json!({"layer": "T", "definition": def, "line": line, "expect_null": expect_null});
+    let tables = match catch(|| sut::make_tables(def)) {
+        Ok(Ok(t)) => t,
+        Ok(Err(_)) => return vec![],
+        Err(p) => return vec![fail(panic_signature(&p), format!("`{}` panicked: {}", def, p.msg), case, json!("no panic"), json!(p.msg), 0)],
+    };
+    let st = sut::parse("SELECT * FROM x").unwrap();
+    match sut::run_batch(&tables, &st, &[line]) {
+        Outcome::Panic(p) => vec![fail(panic_signature(&p), format!("`{}` on {:?} panicked: {}", def, line, p.msg), case, json!("value or NULL"), json!(p.msg), 0)],
+        Outcome::Ok(tb) if expect_null => match tb.rows.get(0).map(|r| r[0].clone()) {
+            Some(v) if !v.is_null() => vec![fail("silent-wrap:extracted-part".into(), format!("`{}` on {:?}: an out-of-range part silently became {:?}", def, line, v), case, json!("NULL"), v.to_json(), line.len() as u64)],
+            _ => vec![],
+        },
+        _ => vec![],
+    }
+}
+
+/// T: TIMESTAMP columns assembled from 2..7 groups (with and without MICROSECONDS) and INT arrays, one part at a time
+/// replaced by a number outside every part's range
+fn parts_layer(col: &Collector) {
+    let toks = ["4294967297", "4294968", "4294967295", "4294967296", "123456789", "-1", "9223372036854775807", "-9223372036854775808", "9223372036854775808", "99999999999999999999999"];
+    let base = ["2021", "2", "28", "23", "59", "58", "123"];
+    let mut n = 0;
+    for parts in 2..=7usize {
+        for m in ["", " MICROSECONDS"] {
+            let refs: Vec<String> = (1..=parts).map(|g| format!("p[{}]", g)).collect();
+            let def = format!("CREATE TABLE x(p = '^{}$', {} => c TIMESTAMP{}, 'm=(m)' => m TEXT DEFAULT 'm');", vec!["(\\\\S+)"; parts].join(" "), refs.join(", "), m);
+            for i in 0..parts {
+                for t in toks {
+                    let mut l: Vec<&str> = base[..parts].to_vec();
+                    l[i] = t;
+                    let line = l.join(" ");
+                    n += 1;
+                    col.eval(1);
+                    col.nontrivial(h64(&("T", &def, &line)));
+                    // a negative year is a year of the proleptic calendar, not an out-of-range part
+                    for f in extract_case(&def, &line, !(i == 0 && t == "-1")) {
+                        col.fail(f);
+                    }
+                }
+            }
+            n += 1;
+            col.eval(1);
+            for f in extract_case(&def, &base[..parts].join(" "), false) {
+                col.fail(f);
+            }
+        }
+    }
+    let adef = "CREATE TABLE x(p = '^(\\\\S+) (\\\\S+)$', p[1], p[2] => c INT[], 'm=(m)' => m TEXT DEFAULT 'm');";
+    for t in toks {
+        n += 1;
+        col.eval(1);
+        for f in extract_case(adef, &format!("{} {}", t, t), t.parse::<i64>().is_err()) {
+            col.fail(f);
+        }
+    }
+    col.layer("T-extreme date parts and array elements", n, true, json!({"numbers": toks, "timestamp_groups": "2..7", "modifiers": ["", "MICROSECONDS"]}));
+    col.sample(json!({"layer": "T", "definition": adef, "line": "4294968 4294968", "expect_null": false}));
+}
+
+const AGG_NAMES: [&str; 15] = ["COUNT", "SUM", "MIN", "MAX", "AVG", "STDDEV", "VARIANCE", "PERCENTILE", "BOOL_AND", "BOOL_OR", "STRING_AGG", "ARRAY_AGG", "count", "Sum", "NOSUCHAGG"];
+const AGG_ARGS: [&str; 14] = ["", "*", "DISTINCT", "DISTINCT *", "DISTINCT i", "i", "i, i", "1", "NULL", "i, 'x', 1", "t", "i, 0.5", "t, ','", "DISTINCT t, ','"];
+
+/// G: every aggregate name x every argument form (empty, *, DISTINCT without a column, too many, literals) as projection,
+/// next to a group key and inside HAVING; whatever the parser accepts must run without a panic
+fn agg_forms_layer(col: &Collector, tables: &Tables) {
+    let lines: Vec<String> = vec!["m=m i=1 r=1.5 t=<a> b=x".into(), "m=m i=2 t=<b>".into(), "m=m".into()];
+    let mut n = 0;
+    let mut accepted = 0;
+    for name in AGG_NAMES {
+        for args in AGG_ARGS {
+            let call = format!("{}({})", name, args);
+            for text in [format!("SELECT {} FROM t", call), format!("SELECT t, {} FROM t GROUP BY t", call), format!("SELECT t, COUNT(*) FROM t GROUP BY t HAVING {} > 0", call), format!("SELECT {} + 1, COUNT(*) FROM t", call)] {
+                let mut seqs: Vec<Vec<String>> = lines.iter().map(|l| vec![l.clone()]).collect();
+                seqs.push(lines.clone());
+                for seq in seqs {
+                    let (fs, evals, errs) = no_panic(tables, &text, &seq, "G");
+                    n += 1;
+                    col.eval(evals.max(1));
+                    if evals > 0 {
+                        accepted += 1;
+                        col.nontrivial(h64(&("G", &text, &seq)));
+                        col.outcome(h64(&("G", errs > 0)));
+                    }
+                    for f in fs {
+                        col.fail(f);
+                    }
+                }
+            }
+        }
+    }
+    col.layer("G-aggregate argument forms", n, true, json!({"names": AGG_NAMES, "argument_forms": AGG_ARGS, "runs_accepted_by_the_parser": accepted}));
+    col.sample(json!({"layer": "G", "statement": "SELECT COUNT(DISTINCT) FROM t", "line": "m=m i=1 r=1.5 t=<a> b=x"}));
+}
+
 pub fn run(ctx: &Ctx) -> i32 {
     let col = Collector::new();
     let tables = sut::make_tables(DEF).expect("C09 definition");
     join_layer(ctx, &col);
     wrap_layer(&col);
+    parts_layer(&col);
+    agg_forms_layer(&col, &tables);
     expr_layer(ctx, &col, &tables);
     agg_layer(ctx, &col, &tables);
     format_layer(&col, &tables);
@@ -538,7 +640,7 @@ pub fn run(ctx: &Ctx) -> i32 {
         &col,
         Finish {
             level: "exploration",
-            rule: "E: every expression node kind over all leaf tuples x all rows of an extreme value domain (projection and WHERE); A: 33 aggregate items x 9 clause variants x all sequences up to the bound over 7 extreme lines (result requested after every line); F: every extreme value x 3 output formats x 4 statements; B: all byte strings up to the bound over 9 byte units x 2 table kinds x 3 statements x 2 formats; Z: 4 time zones x local times at 15-minute steps around every DST transition x 10 statements (child processes); X: the CLI binary on 8 cases. Oracle: no panic / abort / hang. Non-trivial: the run took an error path or produced output from an extreme value.".into(),
+            rule: "E: every expression node kind over all leaf tuples x all rows of an extreme value domain (projection and WHERE); A: 33 aggregate items x 9 clause variants x all sequences up to the bound over 7 extreme lines (result requested after every line); F: every extreme value x 3 output formats x 4 statements; B: all byte strings up to the bound over 9 byte units x 2 table kinds x 3 statements x 2 formats; Z: 4 time zones x local times at 15-minute steps around every DST transition x 10 statements (child processes); X: the CLI binary on 8 cases; W/T: 7 + 10 out-of-range numbers through JSON / regex extraction, casts, arithmetic, aggregates, each TIMESTAMP part of 2..7-group columns (with and without MICROSECONDS) and INT arrays; G: 15 aggregate names x 14 argument forms x 4 statement shapes x 4 line sequences. Oracle: no panic / abort / hang. Non-trivial: the run took an error path or produced output from an extreme value.".into(),
             exhaustive: true,
             assumptions: vec!["harness profile has overflow checks on, so a silent wrap is observed as a panic".into(), "time zones limited to 4 (one with a midnight gap, one with a 30-minute shift)".into()],
             bounds: json!({"zones": 4}),
@@ -549,7 +651,8 @@ pub fn run(ctx: &Ctx) -> i32 {
 pub fn replay(case: &J) -> Vec<Failure> {
     let tables = sut::make_tables(DEF).unwrap();
     match case["layer"].as_str() {
-        Some("E") | Some("A") => {
+        Some("T") => extract_case(case["definition"].as_str().unwrap(), case["line"].as_str().unwrap(), case["expect_null"].as_bool().unwrap_or(false)),
+        Some("E") | Some("A") | Some("G") => {
             let line = case["line"].as_str().unwrap_or("").to_string();
             no_panic(&tables, case["statement"].as_str().unwrap(), &[line], "replay").0
         }
